@@ -59,12 +59,17 @@ def payloads(rng, tier):
     for s in ["", "A", "T", "AC", "CA", "TCTCTCT", "ACGT" * 10]:
         for vt in (1, 2, 5, 32, 33, 34, 40, 70):
             yield "set_vt", {"s": s, "n": vt}
+    for ln in ([600, 2000, 20000, 100000] if tier != "search" else [600]):
+        for vt in (10, 12, 17, 40):
+            base = rng.choice(["AC", "ACGT", "AT", "CG"])
+            st = (base * (ln // len(base) + 1))[:ln] if rng.random() < 0.5 else "".join(rng.choice(NUC) for _ in range(ln))
+            yield "set_vt", {"s": st, "n": vt}
     for _ in range(n):
         yield "set_vt", {"s": strand(rng, maxlen), "n": rng.choice([1, 1, 2, 3, 5, 8, 16, 32, 33, 34, 40, rng.randint(1, 70)])}
     for _ in range(n // 30):
         s = strand(rng, 20)
         i = rng.randint(0, len(s))
-        yield "foreign", {"s": s[:i] + rng.choice("NnacgtU*") + s[i:], "n": rng.randint(1, 8)}
+        yield "foreign", {"s": s[:i] + rng.choice(["N", "n", "a", "c", "g", "t", "U", "*", "é", "Ω"]) + s[i:], "n": rng.randint(1, 8)}
     # every single edit of sampled walks, decoded with the original check
     walks = {"quick": 12, "thorough": 150, "search": 6}[tier]
     for _ in range(walks):
@@ -103,7 +108,7 @@ def build(stream, p):
             if raw != want:
                 return "set_vt returned %r, the documented function gives %r" % (raw, want)
             return None
-        return Case(stream, p, call, impl, oracle, domain=all(ord(c) < 128 for c in s), nontrivial=len(s) >= 2,
+        return Case(stream, p, call, impl, oracle, domain=True, nontrivial=len(s) >= 2,
                     tags=["n=%s" % ("1" if n == 1 else "2-32" if n <= 32 else ">=33"), "len<=%d" % (10 ** len(str(max(1, len(s)))))])
     rows, v0, w, vt, faster = p["rows"], p["v0"], p["w"], p["vt"], p["faster"]
     kind, i, c = p["e"]
